@@ -2,6 +2,7 @@ import StunVerif.Props.C04
 import StunVerif.Props.C04Seal
 import StunVerif.Props.RefHashes
 import StunVerif.Props.SrcFnIntegrity
+import StunVerif.Props.SrcFnBuilder
 #print axioms StunVerif.C04.key_def
 #print axioms StunVerif.C04.validate_spec
 #print axioms StunVerif.C04.missing
@@ -27,3 +28,13 @@ import StunVerif.Props.SrcFnIntegrity
 #print axioms StunVerif.SrcFnIntegrity.src_validateIntegrity_faultEq
 #print axioms StunVerif.SrcFnIntegrity.accepted_size
 #print axioms StunVerif.SrcFnIntegrity.src_validateIntegrity
+#print axioms StunVerif.SrcFnBuilder.src_hasAttribute
+#print axioms StunVerif.SrcFnBuilder.src_hasAnyAttribute
+#print axioms StunVerif.SrcFnBuilder.src_addRawAttribute
+#print axioms StunVerif.SrcFnBuilder.src_addAttribute
+#print axioms StunVerif.SrcFnBuilder.src_addFingerprint
+#print axioms StunVerif.SrcFnBuilder.model_addFingerprint_refused
+#print axioms StunVerif.SrcFnBuilder.src_addMessageIntegrity_guard
+#print axioms StunVerif.SrcFnBuilder.src_integrityBytes
+#print axioms StunVerif.SrcFnBuilder.src_addMessageIntegrity
+#print axioms StunVerif.SrcFnBuilder.src_addFingerprint_full
